@@ -59,8 +59,11 @@ fn resolve_pattern(matches: Paths) -> Result<Vec<PathBuf>> {
     let mut seen = HashSet::new();
     for path in matches {
         let path = path?;
-        if let Ok(real) = path.canonicalize() {
-            if !seen.insert(real) {
+        // (The entry itself may well be a link to another match; it
+        // is the directory it was found in that counts.)
+        let dir = path.parent().filter(|p| !p.as_os_str().is_empty()).unwrap_or(Path::new("."));
+        if let (Ok(real), Some(name)) = (dir.canonicalize(), path.file_name()) {
+            if !seen.insert(real.join(name)) {
                 return Err(XcpError::InvalidSource("Pattern matches the same file twice, through a symbolic link.").into());
             }
         }
